@@ -4,30 +4,51 @@
 (* formal.variance / formal.stddev (two-pass, population), each built on   *)
 (* rs.ops.scan(accumulate, seed, reduce) followed by a map.                *)
 (*                                                                         *)
-(* TLC has no reals.  Every number is an exact rational <<num, den>> with  *)
-(* den > 0 and gcd(num, den) = 1, so that this module decides the *algebra*  *)
-(* of the operators; the floating-point clause of C12 is probed            *)
-(* numerically by the harness against the definitions of the second part   *)
-(* of this module evaluated exactly.                                       *)
+(* TLC has no reals.  Every number the code handles is an exact rational   *)
+(* <<num, den>> with den > 0 and gcd(num, den) = 1 (what python's Fraction *)
+(* does), so this module decides the *algebra* of the operators; the       *)
+(* floating-point clause of C12 is probed numerically by the harness       *)
+(* against the definitions of part 2 evaluated exactly.                    *)
 (*                                                                         *)
 (* Part 1 (implementation-shaped): one state variable per accumulator,     *)
-(* updated exactly as coded, the streaming instance (reduce=False, emits   *)
-(* after every item) and the reduce instance (reduce=True, emits once at   *)
-(* completion) side by side.  formal.variance's map function clears the    *)
-(* list that scan keeps as its state; FormalClears = TRUE is the code as   *)
-(* it is, FALSE the repaired behaviour.                                    *)
-(* Part 2 (specification): Mean, SampleVar, PopVar, Sum, Min, Max of the   *)
-(* whole history, written over the multiset of values and not as folds.    *)
+(* updated exactly as coded; for every operator a streaming instance       *)
+(* (reduce=False, emits after every item) and a reduce instance            *)
+(* (reduce=True, emits once at completion) run side by side on the same    *)
+(* items.  formal.variance's map function clears the list that scan keeps  *)
+(* as its state; FormalClears = TRUE is the code as it is, FALSE the       *)
+(* repaired behaviour.                                                     *)
+(* Part 2 (specification): Sum, Mean, SampleVar, PopVar, Min, Max of the   *)
+(* whole history, as integer expressions over the multiset `bag` of the    *)
+(* items received (unnormalised fractions, compared by                     *)
+(* cross-multiplication); no folds over the stream, no recurrences.        *)
+(*                                                                         *)
+(* The history is kept as a multiset: the order of the items is recorded   *)
+(* (hist) only for behaviour generation.  Two item sequences lead to the   *)
+(* same TLC state only if every accumulator of the code is equal after     *)
+(* them, so every sequence over Vals of length <= MaxLen is a path of the  *)
+(* state graph and every invariant is checked after each of its prefixes;  *)
+(* the number of *distinct* states is small because Welford's (m, s, k)    *)
+(* and the folds forget the order (which the invariants prove).  The lists *)
+(* of formal.variance remember it: runs that instantiate formal.* have one *)
+(* state per sequence.                                                     *)
+(*                                                                         *)
+(* Items: the environment sends integers a; the item value is a / unit     *)
+(* (unit = 1 while model checking; recorded executions may use halves).    *)
 (***************************************************************************)
 EXTENDS Integers, Sequences, FiniteSets, TLC
 
-CONSTANTS VMax,          \* the environment offers the raw integer items -VMax..VMax
+CONSTANTS VMax,          \* the environment offers the raw items -VMax..VMax
           MaxLen,        \* longest item sequence
           KMul, KAdd,    \* key_mapper = lambda r: KMul * r + KAdd
           FormalClears,  \* TRUE: formal._variance does acc.clear() (current code)
-          POps           \* operators for which the property is asserted
+          POps,          \* operator instances subscribed (model checking)
+          KeepHist       \* TRUE: record the item order (behaviour generation)
 
-VARIABLES xs,       \* history: raw items received so far (rationals)
+VARIABLES bag,      \* history: raw item (integer, in 1/unit) -> times received
+          nrecv,    \* number of items received
+          hist,     \* the raw items in order (only if KeepHist)
+          unit,     \* common denominator of the raw items
+          inst,     \* operators instantiated in this run
           done,     \* completion delivered
           kmCalls,  \* number of key_mapper calls made by one operator instance
           sumAcc,   \* sum:      acc               (seed 0.0)
@@ -37,49 +58,51 @@ VARIABLES xs,       \* history: raw items received so far (rationals)
           wel,      \* variance: <<m, s, k>>       (seed (None, 0, 0))
           fAccS,    \* formal.variance, streaming instance: the list
           fAccR,    \* formal.variance, reduce instance: the list
-          outS,     \* [op -> values emitted by the streaming instance]
-          outR      \* [op -> values emitted by the reduce instance]
+          lastS,    \* [op -> value last emitted by the streaming instance | NoVal]
+          lastR,    \* [op -> value last emitted by the reduce instance | NoVal]
+          cntS,     \* emissions made by every streaming instance
+          cntR,     \* emissions made by every reduce instance
+          st        \* ghost: part-2 statistics of the whole history
 
-vars == <<xs, done, kmCalls, sumAcc, meanAcc, minAcc, maxAcc, wel, fAccS, fAccR, outS, outR>>
+vars == <<bag, nrecv, hist, unit, inst, done, kmCalls, sumAcc, meanAcc, minAcc, maxAcc, wel, fAccS, fAccR,
+          lastS, lastR, cntS, cntR, st>>
 
 Vals == (-VMax)..VMax
 
 Ops == {"sum", "mean", "min", "max", "variance", "stddev",
         "formal.variance", "formal.stddev"}
+FormalOps == {"formal.variance", "formal.stddev"}
 
 -----------------------------------------------------------------------------
-(* exact rationals *)
+(* exact rationals (python Fraction): normalised pairs *)
 Abs(a) == IF a < 0 THEN -a ELSE a
 
 RECURSIVE GCD(_, _)
 GCD(a, b) == IF b = 0 THEN a ELSE GCD(b, a % b)
 
-LCM(a, b) == (a \div GCD(a, b)) * b
-
-Norm(n, d) ==                       \* d # 0
-    LET s == IF d < 0 THEN -1 ELSE 1
-        g == GCD(Abs(n), Abs(d))
-    IN <<(s * n) \div g, (s * d) \div g>>
+Norm(n, d) ==                       \* d > 0
+    LET g == GCD(Abs(n), d) IN <<n \div g, d \div g>>
 
 R(i)   == <<i, 1>>
 Zero   == <<0, 1>>
 None   == <<>>            \* python None
 Undef  == <<0, 0>>        \* ZeroDivisionError / math domain error
+NoVal  == <<0, 0, 0>>     \* nothing emitted yet
 
 IsRat(p) == /\ Len(p) = 2 /\ p[2] > 0 /\ GCD(Abs(p[1]), p[2]) = 1
             /\ Abs(p[1]) < 32768 /\ p[2] < 32768    \* products stay inside 32 bits
 
-RAdd(p, q) == LET l == LCM(p[2], q[2])
-              IN Norm(p[1] * (l \div p[2]) + q[1] * (l \div q[2]), l)
-RNeg(p)    == <<-p[1], p[2]>>
-RSub(p, q) == RAdd(p, RNeg(q))
-RMul(p, q) == LET a == Norm(p[1], q[2])      \* cross-cancel first: smaller products
-                  b == Norm(q[1], p[2])
-              IN Norm(a[1] * b[1], a[2] * b[2])
-RDiv(p, q) == IF q[1] = 0 THEN Undef ELSE RMul(p, Norm(q[2], q[1]))
-RLt(p, q)  == p[1] * q[2] < q[1] * p[2]
-RLe(p, q)  == p[1] * q[2] <= q[1] * p[2]
-RSq(p)     == RMul(p, p)
+RAdd(p, q)  == Norm(p[1] * q[2] + q[1] * p[2], p[2] * q[2])
+RSub(p, q)  == Norm(p[1] * q[2] - q[1] * p[2], p[2] * q[2])
+RMul(p, q)  == Norm(p[1] * q[1], p[2] * q[2])
+RDivI(p, k) == IF k = 0 THEN Undef                 \* p / k, k an int >= 0
+               ELSE Norm(p[1], p[2] * k)
+RLt(p, q)   == p[1] * q[2] < q[1] * p[2]
+(* p ** n for n in {1, 2}; a power of a normalised fraction is normalised *)
+RPow(p, n)  == IF n = 1 THEN p ELSE <<p[1] * p[1], p[2] * p[2]>>
+
+(* equality of (possibly unnormalised) fractions with positive denominators *)
+REq(p, q) == Len(p) = 2 /\ Len(q) = 2 /\ p[2] > 0 /\ q[2] > 0 /\ p[1] * q[2] = q[1] * p[2]
 
 (* math.sqrt is kept symbolic: <<n, d, 2>> stands for (n/d)^(1/2) *)
 SqrtOf(q)  == IF q = None THEN None
@@ -89,7 +112,7 @@ SquareOf(r) == <<r[1], r[2]>>
 -----------------------------------------------------------------------------
 (* PART 1 -- the code, transcribed                                         *)
 
-KM(r) == RAdd(RMul(R(KMul), r), R(KAdd))            \* key_mapper(i)
+KM(a, u) == Norm(KMul * a + KAdd * u, u)            \* key_mapper(a / u)
 
 (* sum.py: accumulate(acc, i) = acc + key_mapper(i); seed 0.0 *)
 SumSeed == Zero
@@ -99,7 +122,7 @@ SumAccumulate(acc, i) == RAdd(acc, i)
    map: acc[0] / acc[1] if acc is not None else None *)
 MeanSeed == <<Zero, 0>>
 MeanAccumulate(acc, i) == <<RAdd(acc[1], i), acc[2] + 1>>
-MeanMap(acc) == RDiv(acc[1], R(acc[2]))
+MeanMap(acc) == RDivI(acc[1], acc[2])
 
 (* min.py / max.py: if acc is None or i < acc: acc = i; seed None *)
 MinAccumulate(acc, i) == IF acc = None THEN i ELSE IF RLt(i, acc) THEN i ELSE acc
@@ -117,34 +140,33 @@ WelAccumulate(acc, i) ==
         k == acc[3] + 1
     IN IF m = None THEN <<i, s, k>>
        ELSE LET m1 == m
-                m2 == RAdd(m, RDiv(RSub(i, m), R(k)))
+                m2 == RAdd(m, RDivI(RSub(i, m), k))
                 s2 == RAdd(s, RMul(RSub(i, m1), RSub(i, m2)))
             IN <<m2, s2, k>>
-WelMap(acc) == IF acc[3] < 2 THEN Zero ELSE RDiv(acc[2], R(acc[3] - 1))
+WelMap(acc) == IF acc[3] < 2 THEN Zero ELSE RDivI(acc[2], acc[3] - 1)
 
-(* formal/__init__.py: _moment(x, c, n) = sum((x[i]-c)**n) / len(x) if len(x) > 0 else None *)
-RECURSIVE RPow(_, _)
-RPow(p, n) == IF n = 0 THEN R(1) ELSE RMul(p, RPow(p, n - 1))
-
-RECURSIVE SeqSum(_)
-SeqSum(s) == IF s = <<>> THEN Zero ELSE RAdd(Head(s), SeqSum(Tail(s)))
+(* formal/__init__.py:
+   _moment(x, c, n) = sum([(x[i]-c)**n ...]) / len(x) if len(x) > 0 else None *)
+RECURSIVE SumTo(_, _)
+SumTo(f, k) == IF k = 0 THEN Zero ELSE RAdd(SumTo(f, k - 1), f[k])
 
 Moment(x, c, n) ==
     IF Len(x) = 0 THEN None
-    ELSE RDiv(SeqSum([j \in 1..Len(x) |-> RPow(RSub(x[j], c), n)]), R(Len(x)))
+    ELSE RDivI(SumTo([j \in 1..Len(x) |-> RPow(RSub(x[j], c), n)], Len(x)), Len(x))
 
 (* formal/variance.py: accumulate appends to the list; seed [];
    map _variance(acc): 0.0 if empty else
        mean = _moment(acc, 0, 1); v = _moment(acc, mean, 2); acc.clear(); return v
-   `acc` is the very list object scan keeps as its state (plain: closure variable,
-   mux: the object held by the store), so the clear empties the operator's state. *)
+   `acc` is the very list object scan keeps as its state (plain path: the closure
+   variable, mux path: the object held by the store), so the clear empties the
+   operator's state. *)
 FormalSeed == <<>>
 FormalAccumulate(acc, i) == Append(acc, i)
 FormalValue(acc) == IF Len(acc) = 0 THEN Zero ELSE Moment(acc, Moment(acc, Zero, 1), 2)
 FormalListAfterMap(acc) == IF Len(acc) = 0 THEN acc ELSE IF FormalClears THEN <<>> ELSE acc
 
-(* the value each streaming instance emits after an item, from the new accumulators *)
-StreamValue(op, sm, me, mi, ma, w, fl) ==
+(* the value an instance emits, from the accumulators it holds *)
+MapValue(op, sm, me, mi, ma, w, fl) ==
     CASE op = "sum"             -> sm
       [] op = "mean"            -> MeanMap(me)
       [] op = "min"             -> mi
@@ -154,179 +176,230 @@ StreamValue(op, sm, me, mi, ma, w, fl) ==
       [] op = "formal.variance" -> FormalValue(fl)
       [] op = "formal.stddev"   -> SqrtOf(FormalValue(fl))
 
+Has(op) == op \in inst
+HasWel == Has("variance") \/ Has("stddev")
+HasFormal == Has("formal.variance") \/ Has("formal.stddev")
+
+-----------------------------------------------------------------------------
+(* PART 2 -- the specification: statistics of the multiset of mapped items.
+   All integer; item values are v / unit for v in the sequence s.           *)
+
+Val(a, u) == KMul * a + KAdd * u          \* key_mapper(a / u) * u
+Raws(b)   == DOMAIN b
+Values(b, u) == {Val(a, u) : a \in Raws(b)}
+
+RECURSIVE SetSum(_, _)               \* sum of f[a] over a in S
+SetSum(S, f) ==
+    IF S = {} THEN 0
+    ELSE LET a == CHOOSE a \in S : TRUE IN f[a] + SetSum(S \ {a}, f)
+
+NItems(b)  == SetSum(Raws(b), b)
+SumN(b, u) == SetSum(Raws(b), [a \in Raws(b) |-> b[a] * Val(a, u)])
+(* n^2 * (sum of squared deviations from the mean), kept integer:
+   sum over the items of (n*v - SumN)^2 *)
+DevN(b, u) == LET k == NItems(b)
+                  t == SumN(b, u)
+              IN SetSum(Raws(b), [a \in Raws(b) |->
+                                    b[a] * (k * Val(a, u) - t) * (k * Val(a, u) - t)])
+MinN(b, u) == CHOOSE m \in Values(b, u) : \A y \in Values(b, u) : m <= y
+MaxN(b, u) == CHOOSE m \in Values(b, u) : \A y \in Values(b, u) : y <= m
+(* sum of the squared pairwise differences (Lagrange: n * PairN = DevN) *)
+PairN(b, u) ==
+    LET P == {p \in Raws(b) \X Raws(b) : p[1] < p[2]}
+    IN SetSum(P, [p \in P |-> b[p[1]] * b[p[2]] * (Val(p[1], u) - Val(p[2], u))
+                                                * (Val(p[1], u) - Val(p[2], u))])
+
+Stats(b, u) ==
+    IF Raws(b) = {} THEN [n |-> 0, sum |-> 0, dev |-> 0, min |-> 0, max |-> 0]
+    ELSE [n |-> NItems(b), sum |-> SumN(b, u), dev |-> DevN(b, u),
+          min |-> MinN(b, u), max |-> MaxN(b, u)]
+
+EmptyBag == [a \in {} |-> 0]
+BagAdd(b, a) == IF a \in DOMAIN b THEN [b EXCEPT ![a] = @ + 1]
+                ELSE [x \in DOMAIN b \cup {a} |-> IF x = a THEN 1 ELSE b[x]]
+
+(* the statistics as (unnormalised) fractions, u = unit *)
+Sum(t, u)       == <<t.sum, u>>
+Mean(t, u)      == IF t.n = 0 THEN Undef ELSE <<t.sum, t.n * u>>
+Min(t, u)       == IF t.n = 0 THEN None ELSE <<t.min, u>>
+Max(t, u)       == IF t.n = 0 THEN None ELSE <<t.max, u>>
+SumSqDev(t, u)  == IF t.n = 0 THEN Zero ELSE <<t.dev, t.n * t.n * u * u>>
+SampleVar(t, u) == IF t.n < 2 THEN Zero ELSE <<t.dev, t.n * t.n * (t.n - 1) * u * u>>
+PopVar(t, u)    == IF t.n = 0 THEN Zero ELSE <<t.dev, t.n * t.n * t.n * u * u>>
+
+(* what C12 demands from `op` after items with statistics t *)
+SpecValue(op, t, u) ==
+    CASE op = "sum"             -> Sum(t, u)
+      [] op = "mean"            -> Mean(t, u)
+      [] op = "min"             -> Min(t, u)
+      [] op = "max"             -> Max(t, u)
+      [] op = "variance"        -> SampleVar(t, u)
+      [] op = "stddev"          -> SqrtOf(SampleVar(t, u))
+      [] op = "formal.variance" -> PopVar(t, u)
+      [] op = "formal.stddev"   -> SqrtOf(PopVar(t, u))
+
+(* does the emitted value v denote the specified value e ? *)
+Denotes(v, e) ==
+    IF Len(e) = 0 \/ Len(v) = 0 THEN v = e                  \* None
+    ELSE IF Len(e) # Len(v) THEN FALSE
+    ELSE /\ REq(<<v[1], v[2]>>, <<e[1], e[2]>>)
+         /\ Len(e) = 3 => v[3] = e[3] /\ v[1] >= 0
+
+-----------------------------------------------------------------------------
 Init ==
-    /\ xs = <<>> /\ done = FALSE /\ kmCalls = 0
+    /\ bag = EmptyBag /\ nrecv = 0 /\ hist = <<>> /\ unit = 1 /\ inst = POps /\ done = FALSE /\ kmCalls = 0
     /\ sumAcc = SumSeed /\ meanAcc = MeanSeed /\ minAcc = None /\ maxAcc = None
     /\ wel = WelSeed /\ fAccS = FormalSeed /\ fAccR = FormalSeed
-    /\ outS = [op \in Ops |-> <<>>] /\ outR = [op \in Ops |-> <<>>]
+    /\ lastS = [op \in Ops |-> NoVal] /\ lastR = [op \in Ops |-> NoVal]
+    /\ cntS = 0 /\ cntR = 0
+    /\ st = Stats(EmptyBag, 1)
 
-(* on_next(r) of every operator; r is a rational *)
-Item(r) ==
+(* on_next(a / unit) of every instantiated operator *)
+Item(a) ==
     /\ ~done
-    /\ LET i  == KM(r)                       \* key_mapper applied once
-           sm == SumAccumulate(sumAcc, i)
-           me == MeanAccumulate(meanAcc, i)
-           mi == MinAccumulate(minAcc, i)
-           ma == MaxAccumulate(maxAcc, i)
-           w  == WelAccumulate(wel, i)
-           fl == FormalAccumulate(fAccS, i)
+    /\ LET i  == KM(a, unit)                 \* key_mapper applied once
+           sm == IF Has("sum")  THEN SumAccumulate(sumAcc, i)   ELSE sumAcc
+           me == IF Has("mean") THEN MeanAccumulate(meanAcc, i) ELSE meanAcc
+           mi == IF Has("min")  THEN MinAccumulate(minAcc, i)   ELSE minAcc
+           ma == IF Has("max")  THEN MaxAccumulate(maxAcc, i)   ELSE maxAcc
+           w  == IF HasWel      THEN WelAccumulate(wel, i)      ELSE wel
+           fl == IF HasFormal   THEN FormalAccumulate(fAccS, i) ELSE fAccS
        IN /\ sumAcc' = sm /\ meanAcc' = me /\ minAcc' = mi /\ maxAcc' = ma /\ wel' = w
-          /\ fAccS' = FormalListAfterMap(fl)      \* streaming: the map runs after every item
-          /\ fAccR' = FormalAccumulate(fAccR, i)  \* reduce: nothing emitted, nothing cleared
-          /\ outS' = [op \in Ops |-> Append(outS[op], StreamValue(op, sm, me, mi, ma, w, fl))]
+          /\ fAccS' = IF HasFormal THEN FormalListAfterMap(fl)  \* streaming: map runs per item
+                      ELSE fAccS
+          /\ fAccR' = IF HasFormal THEN FormalAccumulate(fAccR, i) ELSE fAccR
+          /\ lastS' = [op \in Ops |-> IF Has(op) THEN MapValue(op, sm, me, mi, ma, w, fl)
+                                      ELSE NoVal]
+    /\ cntS' = cntS + 1
     /\ kmCalls' = kmCalls + 1
-    /\ xs' = Append(xs, r)
-    /\ UNCHANGED <<done, outR>>
+    /\ bag' = BagAdd(bag, a) /\ nrecv' = nrecv + 1
+    /\ hist' = IF KeepHist THEN Append(hist, a) ELSE hist
+    /\ st' = Stats(BagAdd(bag, a), unit)
+    /\ UNCHANGED <<unit, inst, done, lastR, cntR>>
 
 (* on_completed(): streaming instances emit nothing (no terminator), reduce instances
    emit map(state) -- the state is the seed when no item was received *)
 Complete ==
     /\ ~done
     /\ done' = TRUE
-    /\ outR' = [op \in Ops |->
-                  Append(outR[op], StreamValue(op, sumAcc, meanAcc, minAcc, maxAcc, wel, fAccR))]
-    /\ fAccR' = FormalListAfterMap(fAccR)
-    /\ UNCHANGED <<xs, kmCalls, sumAcc, meanAcc, minAcc, maxAcc, wel, fAccS, outS>>
+    /\ lastR' = [op \in Ops |-> IF Has(op)
+                                THEN MapValue(op, sumAcc, meanAcc, minAcc, maxAcc, wel, fAccR)
+                                ELSE NoVal]
+    /\ cntR' = cntR + 1
+    /\ fAccR' = IF HasFormal THEN FormalListAfterMap(fAccR) ELSE fAccR
+    /\ UNCHANGED <<bag, nrecv, hist, unit, inst, kmCalls, sumAcc, meanAcc, minAcc, maxAcc, wel, fAccS,
+                   lastS, cntS, st>>
 
-Next == (\E x \in Vals : Len(xs) < MaxLen /\ Item(R(x))) \/ Complete
+Next == (\E a \in Vals : nrecv < MaxLen /\ Item(a)) \/ Complete
 
 Spec == Init /\ [][Next]_vars
 
 -----------------------------------------------------------------------------
-(* PART 2 -- the specification: statistics of the multiset of mapped items *)
-
-Mapped(h) == [j \in 1..Len(h) |-> KM(h[j])]
-Range(s)  == {s[j] : j \in 1..Len(s)}
-Count(v, s) == Cardinality({j \in 1..Len(s) : s[j] = v})
-Prefix(s, j) == SubSeq(s, 1, j)
-Last(s) == s[Len(s)]
-
-(* sum over the distinct values v of count(v) * w[v] *)
-RECURSIVE WSum(_, _, _)
-WSum(S, s, w) ==
-    IF S = {} THEN Zero
-    ELSE LET v == CHOOSE v \in S : TRUE
-         IN RAdd(RMul(R(Count(v, s)), w[v]), WSum(S \ {v}, s, w))
-
-Sum(s)  == WSum(Range(s), s, [v \in Range(s) |-> v])
-Mean(s) == IF s = <<>> THEN Undef ELSE RDiv(Sum(s), R(Len(s)))
-SumSqDev(s) == LET mu == Mean(s)
-               IN WSum(Range(s), s, [v \in Range(s) |-> RSq(RSub(v, mu))])
-SampleVar(s) == IF Len(s) < 2 THEN Zero ELSE RDiv(SumSqDev(s), R(Len(s) - 1))
-PopVar(s)    == IF Len(s) = 0 THEN Zero ELSE RDiv(SumSqDev(s), R(Len(s)))
-Min(s) == IF s = <<>> THEN None ELSE CHOOSE m \in Range(s) : \A y \in Range(s) : RLe(m, y)
-Max(s) == IF s = <<>> THEN None ELSE CHOOSE m \in Range(s) : \A y \in Range(s) : RLe(y, m)
-
-(* sum of the squared pairwise differences (Lagrange: = n * SumSqDev) *)
-PairSq(s) == SeqSum([p \in 1..(Len(s) * Len(s)) |->
-                 LET i == ((p - 1) \div Len(s)) + 1
-                     j == ((p - 1) % Len(s)) + 1
-                 IN IF i < j THEN RSq(RSub(s[i], s[j])) ELSE Zero])
-
-(* what C12 demands from `op` after the (mapped) items s *)
-SpecValue(op, s) ==
-    CASE op = "sum"             -> Sum(s)
-      [] op = "mean"            -> Mean(s)
-      [] op = "min"             -> Min(s)
-      [] op = "max"             -> Max(s)
-      [] op = "variance"        -> SampleVar(s)
-      [] op = "stddev"          -> SqrtOf(SampleVar(s))
-      [] op = "formal.variance" -> PopVar(s)
-      [] op = "formal.stddev"   -> SqrtOf(PopVar(s))
-
------------------------------------------------------------------------------
 (* invariants *)
-M == Mapped(xs)
-N == Len(xs)
+N == nrecv
+
+(* operators excused from the streaming clauses: the code as it is (FormalClears) is
+   known not to satisfy them for formal.*; FormalReport collects the failures instead *)
+Excused == IF FormalClears THEN FormalOps ELSE {}
 
 TypeOK ==
-    /\ done \in BOOLEAN /\ kmCalls \in 0..MaxLen
+    /\ done \in BOOLEAN /\ kmCalls \in 0..MaxLen /\ unit = 1 /\ inst = POps
     /\ IsRat(sumAcc) /\ IsRat(meanAcc[1]) /\ meanAcc[2] \in 0..MaxLen
     /\ (minAcc = None \/ IsRat(minAcc)) /\ (maxAcc = None \/ IsRat(maxAcc))
     /\ (wel[1] = None \/ IsRat(wel[1])) /\ IsRat(wel[2]) /\ wel[3] \in 0..MaxLen
     /\ \A j \in 1..Len(fAccS) : IsRat(fAccS[j])
     /\ \A j \in 1..Len(fAccR) : IsRat(fAccR[j])
+    /\ \A op \in inst : /\ lastS[op] = NoVal \/ lastS[op] = None \/ IsRat(SquareOf(lastS[op]))
+                        /\ lastR[op] = NoVal \/ lastR[op] = None \/ lastR[op] = Undef
+                           \/ IsRat(SquareOf(lastR[op]))
 
 (* the specification's own definitions agree with each other *)
 SpecConsistent ==
-    /\ N >= 1 => /\ RMul(R(N), SumSqDev(M)) = PairSq(M)
-                 /\ RLe(Min(M), Mean(M)) /\ RLe(Mean(M), Max(M))
-                 /\ RMul(R(N), PopVar(M)) = SumSqDev(M)
-                 /\ RLe(Zero, PopVar(M)) /\ RLe(PopVar(M), SampleVar(M))
-    /\ N >= 2 => RMul(R(N - 1), SampleVar(M)) = SumSqDev(M)
-    /\ (N >= 1 /\ Cardinality(Range(M)) = 1) => PopVar(M) = Zero /\ SampleVar(M) = Zero
+    /\ st = Stats(bag, unit) /\ st.n = N
+    /\ N >= 1 => /\ N * PairN(bag, unit) = st.dev           \* Lagrange identity
+                 /\ st.min * N <= st.sum /\ st.sum <= st.max * N
+                 /\ st.dev >= 0
+                 /\ (Cardinality(Values(bag, unit)) = 1 <=> st.dev = 0)
+                 /\ st.min \in Values(bag, unit) /\ st.max \in Values(bag, unit)
+    /\ KeepHist => /\ Len(hist) = N
+                   /\ \A a \in Raws(bag) : bag[a] = Cardinality({j \in 1..N : hist[j] = a})
 
 (* Welford: after k items m is their mean and s the sum of squared deviations *)
 WelfordIdentity ==
-    /\ wel[3] = N
-    /\ N = 0 => wel = WelSeed
-    /\ N >= 1 => wel[1] = Mean(M) /\ wel[2] = SumSqDev(M)
+    HasWel => /\ wel[3] = N
+              /\ N = 0 => wel = WelSeed
+              /\ N >= 1 => REq(wel[1], Mean(st, unit)) /\ REq(wel[2], SumSqDev(st, unit))
 
-(* the folds of sum / mean / min / max *)
+(* the folds of sum / mean / min / max and the lists of formal.variance *)
 FoldIdentity ==
-    /\ sumAcc = Sum(M)
-    /\ meanAcc = <<Sum(M), N>>
-    /\ minAcc = Min(M) /\ maxAcc = Max(M)
-    /\ fAccR = (IF done /\ FormalClears THEN <<>> ELSE M)
+    /\ Has("sum")  => REq(sumAcc, Sum(st, unit))
+    /\ Has("mean") => REq(meanAcc[1], Sum(st, unit)) /\ meanAcc[2] = N
+    /\ Has("min")  => Denotes(minAcc, Min(st, unit))
+    /\ Has("max")  => Denotes(maxAcc, Max(st, unit))
+    /\ HasFormal   => /\ Len(fAccR) = (IF done /\ FormalClears THEN 0 ELSE N)
+                      /\ Len(fAccS) = (IF FormalClears THEN 0 ELSE N)
 
-Counts ==
-    \A op \in Ops : Len(outS[op]) = N /\ Len(outR[op]) = (IF done THEN 1 ELSE 0)
+Counts == cntS = N /\ cntR = (IF done THEN 1 ELSE 0)
 
 KeyMapperOnce == kmCalls = N
 
-(* every streaming instance emits the statistic of the items seen so far (the earlier
-   emissions were checked in the predecessor states: outS only grows by Append) *)
+(* every streaming instance emits the statistic of the items seen so far (checked in
+   every reachable state, i.e. after every item of every sequence) *)
 StreamingValue ==
-    N >= 1 => \A op \in POps : Last(outS[op]) = SpecValue(op, M)
-
-(* the same for every prefix; used at small bounds and along recorded traces *)
-StreamingAll ==
-    \A op \in POps : \A j \in 1..N : outS[op][j] = SpecValue(op, Prefix(M, j))
+    N >= 1 => \A op \in inst \ Excused : Denotes(lastS[op], SpecValue(op, st, unit))
 
 VarianceValue ==
-    N >= 1 => /\ Last(outS["variance"]) = SampleVar(M)
-              /\ N < 2 => Last(outS["variance"]) = Zero
+    (N >= 1 /\ Has("variance")) =>
+        /\ Denotes(lastS["variance"], SampleVar(st, unit))
+        /\ N < 2 => lastS["variance"] = Zero
 
 (* stddev^2 = variance, exactly (squares are compared) *)
+SqOK(sd, var) == Len(sd) = 3 /\ sd[3] = 2 /\ sd[2] > 0 /\ SquareOf(sd) = var
 StdDevSquared ==
-    /\ \A j \in 1..N : /\ Len(outS["stddev"][j]) = 3
-                       /\ SquareOf(outS["stddev"][j]) = outS["variance"][j]
-                       /\ outS["stddev"][j][2] > 0
-                       /\ SquareOf(outS["formal.stddev"][j]) = outS["formal.variance"][j]
-                       /\ outS["formal.stddev"][j][2] > 0
-    /\ done => /\ SquareOf(outR["stddev"][1]) = outR["variance"][1]
-               /\ SquareOf(outR["formal.stddev"][1]) = outR["formal.variance"][1]
+    /\ (N >= 1 /\ Has("stddev") /\ Has("variance")) => SqOK(lastS["stddev"], lastS["variance"])
+    /\ (N >= 1 /\ FormalOps \subseteq inst) =>
+           SqOK(lastS["formal.stddev"], lastS["formal.variance"])
+    /\ (done /\ Has("stddev") /\ Has("variance")) => SqOK(lastR["stddev"], lastR["variance"])
+    /\ (done /\ FormalOps \subseteq inst) =>
+           SqOK(lastR["formal.stddev"], lastR["formal.variance"])
 
-(* formal.variance after every item = population variance of the prefix.
+(* formal.variance after every item = population variance of the items so far.
    Expected to FAIL with FormalClears = TRUE (the code as it is). *)
-FormalStreamingOK == N >= 1 => Last(outS["formal.variance"]) = PopVar(M)
+FormalStreamingOK ==
+    (N >= 1 /\ Has("formal.variance")) => Denotes(lastS["formal.variance"], PopVar(st, unit))
 FormalStreaming == FormalStreamingOK
 
 (* the same property as a collector: never stops TLC, prints every failing sequence *)
 FormalReport ==
-    FormalStreamingOK \/ PrintT(<<"FORMALBAD", xs, Last(outS["formal.variance"]), PopVar(M)>>)
+    FormalStreamingOK
+    \/ PrintT(<<"FORMALBAD", hist, lastS["formal.variance"], Norm(st.dev, N * N * N)>>)
 
 (* what the faithful model predicts for the code as it is: always 0 *)
 FormalFaithfulZero ==
-    FormalClears => \A j \in 1..N : outS["formal.variance"][j] = Zero
-                                    /\ outS["formal.stddev"][j] = <<0, 1, 2>>
+    (FormalClears /\ N >= 1 /\ FormalOps \subseteq inst) =>
+        lastS["formal.variance"] = Zero /\ lastS["formal.stddev"] = <<0, 1, 2>>
 
 ReduceValue ==
-    (done /\ N >= 1) => \A op \in Ops : outR[op] = <<SpecValue(op, M)>>
+    (done /\ N >= 1) => \A op \in inst : Denotes(lastR[op], SpecValue(op, st, unit))
 
 StreamEqualsReduce ==
-    (done /\ N >= 1) => \A op \in POps : outR[op] = <<Last(outS[op])>>
+    (done /\ N >= 1) => \A op \in inst \ Excused : lastR[op] = lastS[op]
 
-(* length 0: sum 0, min/max None, variance 0 (mean of nothing is outside C12) *)
+(* length 0: sum 0, min/max None, variance 0 (the mean of nothing is outside C12:
+   the code raises ZeroDivisionError) *)
 EmptyValues ==
-    (done /\ N = 0) => /\ outR["sum"] = <<Zero>>
-                       /\ outR["min"] = <<None>> /\ outR["max"] = <<None>>
-                       /\ outR["variance"] = <<Zero>> /\ outR["stddev"] = <<(<<0, 1, 2>>)>>
-                       /\ outR["formal.variance"] = <<Zero>>
-                       /\ outR["formal.stddev"] = <<(<<0, 1, 2>>)>>
-                       /\ outR["mean"] = <<Undef>>
-                       /\ \A op \in Ops \ {"mean"} : outR[op] = <<SpecValue(op, <<>>)>>
+    (done /\ N = 0) =>
+        /\ Has("sum") => lastR["sum"] = Zero
+        /\ Has("min") => lastR["min"] = None
+        /\ Has("max") => lastR["max"] = None
+        /\ Has("variance") => lastR["variance"] = Zero
+        /\ Has("stddev") => lastR["stddev"] = <<0, 1, 2>>
+        /\ Has("formal.variance") => lastR["formal.variance"] = Zero
+        /\ Has("formal.stddev") => lastR["formal.stddev"] = <<0, 1, 2>>
+        /\ Has("mean") => lastR["mean"] = Undef
+        /\ \A op \in inst \ {"mean"} : Denotes(lastR[op], SpecValue(op, st, unit))
+        /\ \A op \in inst : lastS[op] = NoVal
 
 (* behaviour generation: the raw item sequence at every terminal state *)
-EmitBehaviour == done => PrintT(<<"BEH", [j \in 1..N |-> xs[j][1]]>>)
+EmitBehaviour == done => PrintT(<<"BEH", hist>>)
 =============================================================================
